@@ -303,6 +303,9 @@ type sim struct {
 	seen map[string]map[hash.SHA256Hash]bool
 	// XOR digest -> set name list (for abstraction of digests in the trace)
 	cidAbs map[string]int
+	// model conversation id -> real conversation id (replay mode), and the real id of the last conversation started
+	cidReal   map[int]string
+	lastStart string
 	// C15 monitor
 	parties  map[string]*party           // node name -> identity
 	private  map[hash.SHA256Hash]*privTx // private transactions by ref
@@ -350,6 +353,66 @@ func (s *sim) abstractCid(c string) int {
 	return s.cidAbs[c]
 }
 
+// xorNames abstracts an XOR digest sent by node `from`: the names of its stored transactions if the digest is the XOR
+// of exactly those, otherwise ["?"].
+func (s *sim) xorNames(from string, x []byte) []string {
+	n := s.nodes[from]
+	if len(s.u.txs) > 40 || n == nil {
+		return []string{"?"}
+	}
+	acc := hash.EmptyHash()
+	var names []string
+	for ref := range s.stored(n) {
+		acc = acc.Xor(ref)
+		names = append(names, s.nameOf(ref))
+	}
+	if !acc.Equals(hash.FromSlice(x)) {
+		return []string{"?"}
+	}
+	sort.Strings(names)
+	if names == nil {
+		names = []string{}
+	}
+	return names
+}
+
+// ibltNames abstracts the IBLT of a TransactionSet: the names of the sender's transactions on the pages up to the one
+// holding lcReq, if the filter is exactly the IBLT of those, otherwise ["?"].
+func (s *sim) ibltNames(from string, lcReq uint32, raw []byte) []string {
+	n := s.nodes[from]
+	if len(s.u.txs) > 40 || n == nil {
+		return []string{"?"}
+	}
+	var high uint32
+	cur := s.stored(n)
+	for ref := range cur {
+		if c := s.u.byRef[ref]; c != nil && c.lc > high {
+			high = c.lc
+		}
+	}
+	ref := tree.NewIblt(dag.IbltNumBuckets)
+	names := []string{}
+	for r := range cur {
+		c := s.u.byRef[r]
+		if c == nil {
+			return []string{"?"}
+		}
+		if lcReq >= high || c.lc/dag.PageSize <= lcReq/dag.PageSize {
+			ref.Insert(r)
+			names = append(names, c.name)
+		}
+	}
+	got := tree.NewIblt(dag.IbltNumBuckets)
+	if err := got.UnmarshalBinary(raw); err != nil {
+		return []string{"?"}
+	}
+	if err := got.Subtract(ref); err != nil || !got.Empty() {
+		return []string{"?"}
+	}
+	sort.Strings(names)
+	return names
+}
+
 func (s *sim) names(refs [][]byte) []string {
 	out := []string{}
 	for _, r := range refs {
@@ -388,6 +451,9 @@ func (s *sim) capture(from, to string, e *v2.Envelope) {
 			s.res.Paths["private-payload-sent"]++
 		}
 	}
+	if k == "State" || k == "ListQ" || k == "RangeQ" {
+		s.lastStart = cid
+	}
 	s.seq++
 	m := &inflight{seq: s.seq, from: from, to: to, env: e, kind: k, num: num, tot: tot, cid: cid}
 	s.net = append(s.net, m)
@@ -421,11 +487,14 @@ func (s *sim) capture(from, to string, e *v2.Envelope) {
 	case *v2.Envelope_Gossip:
 		ev["lc"] = mm.Gossip.LC
 		ev["refs"] = s.names(mm.Gossip.Transactions)
+		ev["xor"] = s.xorNames(from, mm.Gossip.XOR)
 	case *v2.Envelope_State:
 		ev["lc"] = mm.State.LC
+		ev["xor"] = s.xorNames(from, mm.State.XOR)
 	case *v2.Envelope_TransactionSet:
 		ev["lc"] = mm.TransactionSet.LC
 		ev["lcReq"] = mm.TransactionSet.LCReq
+		ev["set"] = s.ibltNames(from, mm.TransactionSet.LCReq, mm.TransactionSet.IBLT)
 	case *v2.Envelope_TransactionListQuery:
 		ev["refs"] = s.names(mm.TransactionListQuery.Refs)
 	case *v2.Envelope_TransactionRangeQuery:
@@ -450,7 +519,7 @@ func newSim(t *testing.T, in input, u *universe, res *result) *sim {
 }
 
 func newSimP(t *testing.T, in input, u *universe, res *result, parties map[string]*party) *sim {
-	s := &sim{parties: parties, private: map[hash.SHA256Hash]*privTx{}, t: t, dir: t.TempDir(), u: u, nodes: map[string]*node{}, res: res, seen: map[string]map[hash.SHA256Hash]bool{}, cidAbs: map[string]int{}}
+	s := &sim{parties: parties, private: map[hash.SHA256Hash]*privTx{}, t: t, dir: t.TempDir(), u: u, nodes: map[string]*node{}, res: res, seen: map[string]map[hash.SHA256Hash]bool{}, cidAbs: map[string]int{}, cidReal: map[int]string{}}
 	for _, name := range in.Nodes {
 		db, err := bbolt.CreateBBoltStore(filepath.Join(s.dir, name+".db"), stoabs.WithNoSync())
 		if err != nil {
@@ -666,6 +735,9 @@ func (s *sim) deliver(i int, keep bool) {
 	}()
 	s.res.Delivered++
 	ev["err"] = err != nil
+	if err != nil {
+		ev["errtext"] = err.Error()
+	}
 	ev["added"] = len(s.setNames(n)) - before
 	ev["size"] = len(s.setNames(n))
 	ev["convs"] = len(v2.VerifConversations(n.proto))
@@ -685,14 +757,33 @@ func (s *sim) tick(n, p string) {
 }
 
 func (s *sim) expire(n string, kind string) int {
+	return s.expireMatching(n, kind, nil)
+}
+
+// expireMatching lets one conversation of the given kind time out; `want` (from the model's Expire step) selects it by
+// content: requested clock (State), number of refs (ListQ) or range (RangeQ). kind "" = all conversations.
+func (s *sim) expireMatching(n string, kind string, want *v2.VerifConversation) int {
 	node := s.nodes[n]
-	done := false
-	k := v2.VerifExpire(node.proto, func(c v2.VerifConversation) bool {
-		if done || (kind != "" && c.Kind != kind) {
-			return kind == "" // kind "" = all
+	convs := v2.VerifConversations(node.proto)
+	sort.Slice(convs, func(i, j int) bool { return convs[i].ID < convs[j].ID })
+	pick := ""
+	for pass := 0; pass < 2 && pick == "" && kind != ""; pass++ {
+		for _, c := range convs {
+			if c.Kind != kind {
+				continue
+			}
+			if pass == 0 && want != nil && want.ID != "" && c.ID != want.ID {
+				continue
+			}
+			if pass == 0 && want != nil && (c.LC != want.LC || c.NRefs != want.NRefs || c.Lo != want.Lo || c.Hi != want.Hi) {
+				continue
+			}
+			pick = c.ID
+			break
 		}
-		done = kind != ""
-		return true
+	}
+	k := v2.VerifExpire(node.proto, func(c v2.VerifConversation) bool {
+		return kind == "" || c.ID == pick
 	})
 	if len(s.u.txs) <= 40 && k > 0 {
 		s.res.Trace = append(s.res.Trace, map[string]any{"ev": "expire", "n": n, "kind": kind, "count": k})
@@ -793,14 +884,41 @@ func (s *sim) replay(sc script) {
 		case "GossipTick":
 			s.tick(st.str("n"), st.str("p"))
 		case "Deliver":
-			j := s.find(st.str("kind"), st.str("from"), st.str("to"), st.num("num"))
+			j := -1
+			if real, ok := s.cidReal[st.num("cid")]; ok && st.num("cid") != 0 {
+				// the message of exactly that conversation, if it is in flight
+				for x, m := range s.net {
+					if m.kind == st.str("kind") && m.from == st.str("from") && m.to == st.str("to") && m.num == st.num("num") && m.cid == real {
+						j = x
+						break
+					}
+				}
+			}
+			if j < 0 {
+				j = s.find(st.str("kind"), st.str("from"), st.str("to"), st.num("num"))
+			}
 			if j < 0 {
 				s.res.Drift = append(s.res.Drift, fmt.Sprintf("step %d: no in-flight %s %s->%s #%d", i, st.str("kind"), st.str("from"), st.str("to"), st.num("num")))
 				continue
 			}
+			s.lastStart = ""
 			s.deliver(j, st.boolean("keep"))
+			if nc := st.num("new"); nc != 0 && s.lastStart != "" {
+				s.cidReal[nc] = s.lastStart // the conversation the model calls nc
+			}
 		case "Lose":
-			j := s.find(st.str("kind"), st.str("from"), st.str("to"), st.num("num"))
+			j := -1
+			if real, ok := s.cidReal[st.num("cid")]; ok && st.num("cid") != 0 {
+				for x, m := range s.net {
+					if m.kind == st.str("kind") && m.from == st.str("from") && m.to == st.str("to") && m.num == st.num("num") && m.cid == real {
+						j = x
+						break
+					}
+				}
+			}
+			if j < 0 {
+				j = s.find(st.str("kind"), st.str("from"), st.str("to"), st.num("num"))
+			}
 			if j < 0 {
 				s.res.Drift = append(s.res.Drift, fmt.Sprintf("step %d: nothing to lose (%s %s->%s)", i, st.str("kind"), st.str("from"), st.str("to")))
 				continue
@@ -808,7 +926,11 @@ func (s *sim) replay(sc script) {
 			m := s.remove(j)
 			s.res.Trace = append(s.res.Trace, map[string]any{"ev": "lose", "kind": m.kind, "from": m.from, "to": m.to, "num": m.num})
 		case "Expire":
-			if s.expire(st.str("n"), st.str("kind")) == 0 {
+			want := &v2.VerifConversation{LC: uint32(st.num("lc")), NRefs: st.num("nrefs"), Lo: uint32(st.num("lo")), Hi: uint32(st.num("hi"))}
+			if real, ok := s.cidReal[st.num("cid")]; ok {
+				want.ID = real
+			}
+			if s.expireMatching(st.str("n"), st.str("kind"), want) == 0 {
 				s.res.Drift = append(s.res.Drift, fmt.Sprintf("step %d: no %s conversation to expire on %s", i, st.str("kind"), st.str("n")))
 			}
 		case "LocalCreate":
@@ -1102,6 +1224,9 @@ func runOne(t *testing.T, in input, sc script) *result {
 		s.random(sc, future, invalid)
 	}
 	res.TxTotal = len(u.txs)
+	if len(u.txs) <= 40 {
+		res.Trace = append(res.Trace, map[string]any{"ev": "suffix"})
+	}
 	if !s.fairSuffix(rounds) {
 		detail := []string{}
 		for _, n := range s.order {
